@@ -28,7 +28,7 @@ ASSUMPTIONS = [
 ]
 RULE = ('every implementation run is judged twice - by the Coq model (correspondence) and by the statement-level oracle (search): `evaluations` counts both judgements, `distinct_nontrivial` counts each distinct run once. ' 'exhaustive: every single rule over {context entities} x {permissions} x {groups} x {roles} x {labels} x {excluded entities} x {excluded attributes} of a 2-entity '
         'model (4608 rule sets; 2112 in the quick tier: no edit-only rules, at most two excluded attributes), every unordered pair over a reduced universe, seeded random triples; per rule set the full table user x permission x target '
-        '(2 entities, 4 attributes, 4 objects) of has_perm, can_view and to_json. non-trivial = the table contains both granted and refused cells; '
+        '(2 entities, 4 attributes, 4 objects) of has_perm, can_view, to_json of single objects and to_json with include=[relationship] (related object already loaded / loaded by to_json itself). non-trivial = the table contains both granted and refused cells; '
         'distinct = distinct rule sets')
 
 ENTS = [0, 1]
@@ -150,10 +150,13 @@ def pack(bs):
     return n
 
 def hp_cells(table):
-    """the has_perm cells of the full table (per user: 20 has_perm, 10 can_view, 4 to_json)"""
+    """the has_perm cells of the full table (per user: 20 has_perm, 10 can_view, 4 to_json, 4 + 4 to_json with include)"""
     out = []
-    for u in range(3): out += table[u * 34: u * 34 + 20]
+    for u in range(3): out += table[u * PER_USER: u * PER_USER + 20]
     return out
+
+PER_USER = 42
+RELATED = {0: 2, 1: 3, 2: 0, 3: 1}
 
 HEADER = ('From Coq Require Import List Bool Arith NArith.\nImport ListNotations.\n'
           'Require Import PonyV.Model.C34Perm PonyV.Gen.C34Src PonyV.Model.C34Obs.\n')
@@ -182,8 +185,8 @@ def correspondence(ctx):
     dist = {'single': 0, 'pair': 0, 'multi': 0}
     for rules, r in zip(rs, res):
         dist['single' if len(rules) == 1 else ('pair' if len(rules) == 2 else 'multi')] += 1
-        # every rule set: all has_perm cells; every 8th rule set: the full table (can_view and to_json columns as well)
-        if len(exprs) % 8 == 0:
+        # every rule set: all has_perm cells; every 3rd rule set: the full table (can_view, to_json and to_json-with-include columns as well)
+        if len(exprs) % 3 == 0:
             exprs.append('same_full %s %d%%N' % (c_rtable(rules, r['order']), pack(r['table'])))
         else:
             exprs.append('same_hp %s %d%%N' % (c_rtable(rules, r['order']), pack(hp_cells(r['table']))))
@@ -209,7 +212,7 @@ def correspondence(ctx):
                             'table': ''.join('1' if b else '0' for b in r['table']), 'coq_case': e[:500]})
             break
     return Corr(cases=len(exprs) + len(st_sets), nontrivial=len(nontriv), disagreements=disagreements, samples=samples, distribution=dist,
-                note='one boolean per rule set, computed by vm_compute inside Coq: the whole table (3 users x (2 permissions + can_view) x 10 targets + to_json of 4 objects) '
+                note='one boolean per rule set, computed by vm_compute inside Coq: the whole table (3 users x (2 permissions + can_view) x 10 targets + to_json of 4 objects, alone and with the related object pulled in through include) '
                      'of the model, with the variation points read from the source, equals the table of the real API')
 
 
@@ -300,6 +303,25 @@ def failures_of(rs, res):
                     seen[key] = seen.get(key, 0) + 1
                     if seen[key] == 1: fails.append(Failure(key, 'to_json for user %d serialises %s which the declared rules do not let him view; rules %s'
                                                             % (u, TNAMES[6 + o], json.dumps(rules)), {'rules': rules, 'key': key, 'order': order}))
+            for variant in ('already-loaded', 'loaded-by-to_json'):
+                for o in range(4):
+                    got = t[k]; k += 1
+                    rel = RELATED[o]
+                    cv_impl = lambda i: rows[('view', 'O', i)][0] or rows[('edit', 'O', i)][0]
+                    cv_spec = lambda i: spec(rules, order, u, 'view', 'O', i) or spec(rules, order, u, 'edit', 'O', i)
+                    key = None
+                    if got and not (cv_spec(o) and cv_spec(rel)):
+                        who = 'related' if cv_spec(o) else 'top'
+                        key = 'to_json:include:serialises-unviewable-%s-object:%s' % (who, variant)
+                        what = ('to_json([%s], include=[relationship]) for user %d serialises %s together with %s, which the declared rules do not let him view (related object %s)'
+                                % (TNAMES[6 + o], u, TNAMES[6 + o], TNAMES[6 + rel], variant))
+                    elif got != (cv_impl(o) and cv_impl(rel)):
+                        key = 'to_json:include:differs-from-can_view:%s' % variant
+                        what = ('to_json([%s], include=[relationship]) for user %d %s although can_view(%s)=%s and can_view(%s)=%s'
+                                % (TNAMES[6 + o], u, 'serialises' if got else 'refuses', TNAMES[6 + o], cv_impl(o), TNAMES[6 + rel], cv_impl(rel)))
+                    if key:
+                        seen[key] = seen.get(key, 0) + 1
+                        if seen[key] == 1: fails.append(Failure(key, what + '; rules %s' % json.dumps(rules), {'rules': rules, 'key': key, 'order': order}))
         assert k == len(t), (k, len(t))
     return fails, seen
 
